@@ -249,7 +249,7 @@ def run(chk):
         chk.count('wrapper')
         if r:
             # a timing verdict on real threads counts only if it reproduces
-            if 'did not finish' in r and run_wrapper(wc) is None:
+            if common.timing_verdict(r) and (run_wrapper(wc) is None or run_wrapper(wc) is None):
                 chk.count('wrapper:not-reproduced')
             else:
                 chk.violation('C16:wrapper:' + r[:20], r, wc)
